@@ -18,7 +18,8 @@ RULE = ("plugin lists up to length 3 (4 thorough) over kinds {init, document, me
         ' ; plugin lists that change while in use (self-removal during a stage, a received hook blanking the reply, plugins replaced before a RequestContext gets its reply)'
         " ; an init plugin's edit of the WSDL is what the client is built from; document hooks get the URL with its fragment"
         ' ; Reply codes and content-less errors from the transport; hook edits and the document cache'
-        ' ; hook return values; the doctor over several schemas; the bytes handed to the first received hook')
+        ' ; hook return values; the doctor over several schemas; the bytes handed to the first received hook'
+        ' ; I/O-family errors raised by hooks')
 ASSUMPTIONS = []
 PARTIAL = []
 TRUSTED = []
